@@ -125,6 +125,15 @@ def slice_with_static_deps(path, signature_res, provided=()):
                 seen.add(ident)
                 extra.append(m.group(0))
                 grew = True
+                continue
+            # file-scope static variables (a cache, a counter): one statement, or a struct / union with a body
+            m = re.search(r"^static\s[^;(){}]*\b%s\s*(?:\[[^\]]*\]\s*)*(?:=[^;{]*)?;" % re.escape(ident), src, re.M) or \
+                re.search(r"^static\s+(?:const\s+)?(?:struct|union)\b[^;{}()]*\{(?:(?!^\}).)*?^\}\s*%s\s*(?:\[[^\]]*\]\s*)*(?:=\s*\{[^;]*\})?\s*;"
+                          % re.escape(ident), src, re.M | re.S)
+            if m:
+                seen.add(ident)
+                extra.append(m.group(0))
+                grew = True
     return "\n".join(extra) + ("\n\n" if extra else "") + "\n".join(protos) + ("\n\n" if protos else "") + \
         "\n\n".join(d for _, d in deps) + ("\n\n" if deps else "") + "\n\n".join(wanted)
 
